@@ -11,44 +11,81 @@ from ..rules.pC28 import MiniPy, NS, OPQ, PStr, Env, Closure, Raised, Stopped, U
 
 ID = 'C30'
 TECHNIQUE = ('table comparison against the running interpreter\'s dataclasses module (inspect.signature, _hash_action, Field.__slots__, behaviour probes of '
-             'dataclasses.dataclass on tiny classes); evaluation of the guard prefix of the generate_* functions of Dataclass.py by a small AST evaluator '
-             'for every value of the options that reach them')
-DECIDES = ('(OPT) the option names handle_cclass_dataclass accepts are parameters of dataclasses.dataclass with the same defaults; the keywords it passes to '
-           '_DataclassParams cover that class\'s positional parameters and report the stdlib default for options Cython does not implement; '
+             'dataclasses.dataclass / make_dataclass on tiny classes); evaluation of handle_cclass_dataclass, Field.__init__ and the generate_* functions of Dataclass.py by a small '
+             'AST evaluator on mock nodes for every value of the options that reach them, and evaluation of the source text they generate')
+DECIDES = ('(OPT) the option names handle_cclass_dataclass accepts are parameters of dataclasses.dataclass with the same defaults; each option passed with its non-default '
+           'value reaches the generate_* calls and __dataclass_params__ with that value; the keywords passed to _DataclassParams cover that class\'s positional parameters and '
+           'report the stdlib default for options Cython does not implement; '
            '(FLD) the keywords Field accepts from a user\'s field(...) call are parameters of dataclasses.field with the same effective defaults; the keys recorded for '
            '__dataclass_fields__ are parameters of dataclasses.field and attributes of Field; attributes assigned on the stdlib Field objects are in its __slots__; '
            'every attribute looked up on the imported dataclasses module exists there; '
            '(GEN) for each generate_* call of handle_cclass_dataclass, each value of the options passed to it and a class that does / does not define the method itself: '
            'whether the method is generated, left alone, or the class is rejected equals what dataclasses.dataclass does (probed on the running interpreter); '
            '(HASH) the 16-cell decision of generate_hash_code over (unsafe_hash, eq, frozen, explicit __hash__) equals dataclasses._hash_action; '
-           '(CMP) operator <-> method-name pairs handed to generate_cmp_code are the interpreter\'s; (V1) handlers of RemoveAssignmentsToNames name node classes.')
-NOT_DECIDED = ('the bodies of the generated methods (argument lists, defaults/default factories, repr text, tuple-comparison code, hash field selection), '
-               'kw_only fields, InitVar/ClassVar handling, inheritance of fields, frozen enforcement (__setattr__), __match_args__ content.')
+           '(CMP) operator <-> method-name pairs handed to generate_cmp_code are the interpreter\'s; '
+           '(BODY) the source text generated for __match_args__, __hash__, __repr__, __eq__ and the four ordering methods, for small field lists built through Field.__init__ '
+           '(plain, init=False, repr=False, compare=False, hash=True/False, InitVar), evaluated by the checker\'s own evaluator, agrees with the stdlib dataclass made from the '
+           'same field options: member list of __match_args__, which fields are hashed and in which order, repr text, results of ==,<,<=,>,>= on all 0/1 field values, '
+           'NotImplemented for another class; (V1) handlers of RemoveAssignmentsToNames name node classes.')
+NOT_DECIDED = ('the generated __init__ (argument list, defaults/default factories, InitVar/__post_init__ plumbing), kw_only fields, ClassVar handling, inheritance of fields, '
+               'frozen enforcement (__setattr__), the recursion guard of __repr__, C-typed fields that cannot be converted to Python objects, how Cython compiles the generated source.')
 ASSUMPTIONS = ['the running interpreter\'s dataclasses module (3.12) is the reference the compiled module is compared with',
-               'the part of a generate_* function after its option/explicit-definition guards emits the method whenever it contains the emission (may-analysis of the tail)']
+               'the part of a generate_* function after its option/explicit-definition guards emits the method whenever it contains the emission (may-analysis of the tail)',
+               'the generated method source has Python semantics once cdef declarations and <T> casts are dropped (fields of object/int type)']
 
-# No EXEMPT entries: the V1 entries for RemoveAssignmentsToNames.visit_CClassNode / visit_PyClassNode live in sa/exemptions.py.
+# No EXEMPT entries here: the V1 entries for RemoveAssignmentsToNames.visit_CClassNode / visit_PyClassNode live in sa/exemptions.py.
+# Findings on the unchanged tree (all reproduced by compiling and running a module outside /repo, see the final report of the builder):
+#   C30-BODY generate_hash_code:field(compare=False)   field.hash.value of an unspecified hash is NoneNode.value == "Py_None", never None
+#   C30-BODY generate_match_args:init=False             init=False fields are listed in __match_args__
+#   C30-GEN  generate_order_code (order=True, explicit) a user-defined __lt__/... is kept silently, the stdlib raises TypeError
+#   C30-FLD  Field.__init__:is_initvar / is_classvar     internal parameters are reachable from a user's field(...) keywords
 
 MUTATIONS = [
-    ('Cython/Compiler/Dataclass.py', 'kwargs = dict(... order=False ...) -> order=True', 'C30-OPT'),
-    ('Cython/Compiler/Dataclass.py', 'kwargs = dict(... unsafe_hash=False ...) -> key renamed unsafehash (and its use)', 'C30-OPT'),
-    ('Cython/Compiler/Dataclass.py', "_DataclassParams keywords: drop ('weakref_slot', False)", 'C30-OPT'),
-    ('Cython/Compiler/Dataclass.py', "_DataclassParams keywords: ('slots', False) -> ('slots', True)", 'C30-OPT'),
-    ('Cython/Compiler/Dataclass.py', 'Field.__init__: self.compare = compare or BoolNode(value=True) -> value=False', 'C30-FLD'),
-    ('Cython/Compiler/Dataclass.py', 'Field.__init__: self.hash = hash or NoneNode(pos) -> BoolNode(pos, value=True)', 'C30-FLD'),
-    ('Cython/Compiler/Dataclass.py', 'Field.literal_keys: "compare" -> "compre"', 'C30-FLD'),
-    ('Cython/Compiler/Dataclass.py', '__dataclass_fields__[..]._field_type -> .field_type in the TreeFragment text', 'C30-FLD'),
-    ('Cython/Compiler/Dataclass.py', 'EncodedString("_FIELD_INITVAR") -> "_FIELD_INIT_VAR"', 'C30-FLD'),
-    ('Cython/Compiler/Dataclass.py', 'generate_eq_code: `if not eq` -> `if eq`', 'C30-GEN'),
-    ('Cython/Compiler/Dataclass.py', 'generate_init_code: drop `or node.scope.lookup_here("__init__")`', 'C30-GEN'),
-    ('Cython/Compiler/Dataclass.py', 'handle_cclass_dataclass: generate_repr_code(code, kwargs["eq"], ...)', 'C30-GEN'),
-    ('Cython/Compiler/Dataclass.py', 'generate_hash_code: `if not frozen` -> `if frozen`', 'C30-HASH'),
-    ('Cython/Compiler/Dataclass.py', 'generate_hash_code: drop the `if unsafe_hash: error(...)` under `if hash_entry`', 'C30-HASH'),
-    ('Cython/Compiler/Dataclass.py', 'handle_cclass_dataclass: generate_hash_code(code, kwargs["eq"], kwargs["unsafe_hash"], ...) (swapped)', 'C30-HASH'),
-    ('Cython/Compiler/Dataclass.py', 'generate_order_code: ("<", "__lt__"), ("<=", "__le__") -> names swapped', 'C30-CMP'),
-    ('Cython/Compiler/Dataclass.py', 'RemoveAssignmentsToNames.visit_SingleAssignmentNode -> visit_SingleAssignNode', 'V1'),
-    ('Cython/Compiler/Dataclass.py', 'rename locals (kwargs -> opts, hash_entry -> he), reorder generate_* definitions, `if not eq: return` -> `if eq: pass / else: return`', 'silent'),
-    ('Cython/Compiler/Dataclass.py', 'reorder rows of the kwargs dict and of Field.literal_keys; rename parameter unsafe_hash -> uh in generate_hash_code', 'silent'),
+    # (file, edit, rule that reported it) — all on Cython/Compiler/Dataclass.py, each tried on a scratch copy; every one was reported with the construct in the message
+    ('Dataclass.py', 'kwargs = dict(... order=False ...) -> order=True', 'C30-OPT'),
+    ('Dataclass.py', 'kwargs = dict(... match_args=True) -> match_args=False', 'C30-OPT'),
+    ('Dataclass.py', 'kwargs key unsafe_hash renamed unsafehash (its use kwargs["unsafe_hash"] kept)', 'C30-OPT (crash: KeyError)'),
+    ('Dataclass.py', 'kwargs gets an extra key cache_hash=False', 'C30-OPT'),
+    ('Dataclass.py', "_DataclassParams keywords: drop ('weakref_slot', False)", 'C30-OPT'),
+    ('Dataclass.py', "_DataclassParams keywords: ('slots', False) -> ('slots', True)", 'C30-OPT'),
+    ('Dataclass.py', "_DataclassParams keywords: ('kw_only', kw_only) -> ('kw_only', False)", 'C30-OPT'),
+    ('Dataclass.py', 'option parsing: kwargs[k] = v.value -> not v.value', 'C30-OPT'),
+    ('Dataclass.py', "kw_only = kwargs['kw_only'] -> kwargs['frozen']", 'C30-OPT'),
+    ('Dataclass.py', 'EncodedString("_DataclassParams") -> "_DataclassParam"', 'C30-OPT + C30-FLD'),
+    ('Dataclass.py', 'Field.__init__: self.compare = compare or BoolNode(value=True) -> value=False', 'C30-FLD (+C30-BODY)'),
+    ('Dataclass.py', 'Field.__init__: self.hash = hash or NoneNode(pos) -> BoolNode(pos, value=True)', 'C30-FLD'),
+    ('Dataclass.py', 'Field.__init__ gets a parameter doc=None', 'C30-FLD'),
+    ('Dataclass.py', 'Field.literal_keys: "compare" -> "compre"', 'C30-FLD'),
+    ('Dataclass.py', '__dataclass_fields__[..]._field_type -> .field_type in the TreeFragment text', 'C30-FLD'),
+    ('Dataclass.py', 'EncodedString("_FIELD_INITVAR") -> "_FIELD_INIT_VAR"', 'C30-FLD'),
+    ('Dataclass.py', 'generate_eq_code: `if not eq` -> `if eq`', 'C30-GEN'),
+    ('Dataclass.py', 'generate_init_code: drop `or node.scope.lookup_here("__init__")`', 'C30-GEN'),
+    ('Dataclass.py', 'handle_cclass_dataclass: generate_repr_code(code, kwargs["eq"], ...)', 'C30-GEN'),
+    ('Dataclass.py', 'generate_match_args: `if not match_args or ...` -> `if match_args or ...`', 'C30-GEN'),
+    ('Dataclass.py', 'generate_order_code: `if not order` -> `if order is None`', 'C30-GEN'),
+    ('Dataclass.py', 'generate_hash_code: `if not frozen` -> `if frozen`', 'C30-HASH'),
+    ('Dataclass.py', 'generate_hash_code: drop the `if unsafe_hash: error(...)` under `if hash_entry`', 'C30-HASH'),
+    ('Dataclass.py', 'handle_cclass_dataclass: generate_hash_code(code, kwargs["eq"], kwargs["unsafe_hash"], ...) (swapped)', 'C30-HASH'),
+    ('Dataclass.py', 'generate_hash_code: `if not eq: return` merged into `if not eq or not frozen: return`', 'C30-HASH'),
+    ('Dataclass.py', 'generate_order_code: ("<", "__lt__"), ("<=", "__le__") -> names swapped', 'C30-CMP (+C30-BODY)'),
+    ('Dataclass.py', 'generate_eq_code: "==" -> "!="', 'ANALYSIS-ERROR naming generate_eq_code (generated source `self.a ! other.a` is no longer parsable); C30-CMP reports it when BODY is skipped'),
+    ('Dataclass.py', "generate_cmp_code: 'True' if '=' in op else 'False' -> swapped", 'C30-BODY'),
+    ('Dataclass.py', "generate_cmp_code: op_without_equals = op.replace('=', '') -> op", 'C30-BODY'),
+    ('Dataclass.py', 'generate_cmp_code: `!=` -> `==` in the emitted early-exit line', 'C30-BODY'),
+    ('Dataclass.py', 'generate_cmp_code: names ignores field.compare.value', 'C30-BODY'),
+    ('Dataclass.py', 'generate_cmp_code: `is not self.__class__` -> `is self.__class__`', 'C30-BODY'),
+    ('Dataclass.py', 'generate_cmp_code: for name in reversed(names)', 'C30-BODY'),
+    ('Dataclass.py', 'generate_repr_code: ignores field.repr.value; ", ".join -> ",".join', 'C30-BODY'),
+    ('Dataclass.py', 'generate_hash_code: reversed(names); selection ignores field.hash', 'C30-BODY'),
+    ('Dataclass.py', 'generate_match_args: `if not field_is_kw_only` -> `if field_is_kw_only`', 'C30-BODY'),
+    ('Dataclass.py', 'RemoveAssignmentsToNames.visit_SingleAssignmentNode -> visit_SingleAssignNode', 'V1'),
+    # behaviour-preserving edits: no new finding
+    ('Dataclass.py', 'rename locals (kwargs -> opts, hash_entry -> he, names -> cmp_names), `if not eq: return` -> `if eq: pass / else: return`', 'silent'),
+    ('Dataclass.py', 'reorder rows of the kwargs dict and of Field.literal_keys; rename parameter unsafe_hash -> uh in generate_hash_code', 'silent'),
+    ('Dataclass.py', 'kwargs as a dict literal; hash guards restructured (`if not unsafe_hash and not eq: return`)', 'silent'),
+    ('Dataclass.py', 'generate_order_code iterates a dict name->op and calls generate_cmp_code with keyword arguments', 'silent'),
+    ('Dataclass.py', 'generate_cmp_code emits the class test through code.indenter + add_code_line and `if not (x == y)` instead of `!=`', 'silent'),
+    ('Dataclass.py', 'generate_hash_code builds the tuple text with "".join("self.%s, "); generate_repr_code builds strs in a for loop with f-strings', 'silent'),
 ]
 
 DEF_RE = re.compile(r'^\s*(?:def\s+(\w+)\s*\(|(__\w+__)\s*=(?!=))')
@@ -572,7 +609,7 @@ def module_attr_sites(model):
 
 
 def rule_FLD(model):
-    r = Rule('C30-FLD', 'cython.dataclasses.field options vs inspect.signature(dataclasses.field); recorded field keys; attributes of stdlib Field / dataclasses module that Cython relies on', floor=22)
+    r = Rule('C30-FLD', 'cython.dataclasses.field options vs inspect.signature(dataclasses.field); recorded field keys; attributes of stdlib Field / dataclasses module that Cython relies on', floor=21)
     cls, init, accepted, dflt = field_defaults(model)
     ref = inspect.signature(dataclasses.field).parameters
 
@@ -714,7 +751,7 @@ def probe_operator(op):
 
 
 def rules_GEN(model, info):
-    rg = Rule('C30-GEN', 'per generate_* call of handle_cclass_dataclass: (option values, class defines the method itself) -> generated / left alone / rejected equals dataclasses.dataclass', floor=28)
+    rg = Rule('C30-GEN', 'per generate_* call of handle_cclass_dataclass: (option values, class defines the method itself) -> generated / left alone / rejected equals dataclasses.dataclass', floor=34)
     rh = Rule('C30-HASH', 'generate_hash_code decision over (unsafe_hash, eq, frozen, explicit __hash__) equals dataclasses._hash_action (16 cells)', floor=16)
     rc = Rule('C30-CMP', 'operator <-> special-method pairs handed to the comparison generator are the interpreter\'s', floor=5)
     table = getattr(dataclasses, '_hash_action', None)
@@ -965,7 +1002,7 @@ def run_generated(tree, name, args, extra_globals=None):
 
 
 def rule_BODY(model, info):
-    r = Rule('C30-BODY', 'generated __match_args__/__hash__/__repr__/__eq__/ordering code, evaluated for small field lists, agrees with the stdlib dataclass built from the same field options', floor=150)
+    r = Rule('C30-BODY', 'generated __match_args__/__hash__/__repr__/__eq__/ordering code, evaluated for small field lists, agrees with the stdlib dataclass built from the same field options', floor=420)
     emitter = {}
     for g in info['gens']:
         for mm in g.get('methods', []):
